@@ -15,7 +15,7 @@ BUILT = {
             "(diagnostic code, lexeme classes around it).",
             "The grammar is the trusted definition of conformance (narrowest reading of the Norm); constructs that are open findings are excluded by construction, counted, and re-observed on fixed probes.",
             "§4.1"),
-    "C02": ("mutation of generated conforming programs by a catalogue of 86 violation operators at generated sites; expected-diagnostic oracle",
+    "C02": ("mutation of generated conforming programs by a catalogue of 104 violation operators at generated sites; expected-diagnostic oracle",
             "For every generated conforming program each applicable edit operator (one Norm violation, tied to one diagnostic code) is applied at sites enumerated from the program's site map; "
             "the expected code must be reported on the expected line, the file must be Error and the CLI must exit non-zero. Misses are bucketed by (operator, site class).",
             "Site predicates are trusted to describe where each enforced rule applies; rules the tool does not police are not in the catalogue; lenient classes found are open findings keyed (operator, site class).",
